@@ -10,6 +10,8 @@ pub enum Val {
     UInt(u64),
     /// f64 by bit pattern, all NaNs identified
     Float(u64),
+    /// text that the printer emits verbatim (defect injection: malformed entities etc.); never produced by snapshot
+    Raw(String),
 }
 impl Val {
     pub fn from_cdata(c: &CharacterData) -> Val {
@@ -22,7 +24,7 @@ impl Val {
     }
     pub fn text(&self) -> String {
         match self {
-            Val::Enum(s) | Val::Str(s) => s.clone(),
+            Val::Enum(s) | Val::Str(s) | Val::Raw(s) => s.clone(),
             Val::UInt(u) => u.to_string(),
             Val::Float(b) => f64::from_bits(*b).to_string(),
         }
@@ -294,7 +296,10 @@ pub fn print_node(n: &Node, root_version: Option<AutosarVersion>, indent: usize,
             out.push_str(a);
             out.push('=');
             out.push(q);
-            escape_ctx(&v.text(), o.entity, Some(q), out);
+            match v {
+                Val::Raw(r) => out.push_str(r),
+                _ => escape_ctx(&v.text(), o.entity, Some(q), out),
+            }
             out.push(q);
         }
     }
@@ -315,6 +320,7 @@ pub fn print_node(n: &Node, root_version: Option<AutosarVersion>, indent: usize,
         // character or mixed content: everything inline
         for it in &n.items {
             match it {
+                Item::Text(Val::Raw(r)) => out.push_str(r),
                 Item::Text(v) => escape(&v.text(), o.entity, out),
                 Item::Node(c) => print_node(c, None, indent + 1, true, o, out),
             }
